@@ -156,6 +156,7 @@ impl<V> Memory<V>
 where
     V: Value,
 {
+//@ source lib/memory/paged.rs
 //@ fn impl<V> Memory<V> :: fn load loops=1
 //@ attr #[verifier::spinoff_prover]
 //@ closure 0 |e: Error| -> (r0: Error)
